@@ -11,7 +11,11 @@ def kinds_str(prog):
 
 def replay_case(case, oracle):
     """Re-execute one recorded case without the explorer and apply the oracle."""
-    H.bind(case.get("p") or REC.BN128)
+    if case.get("real"):
+        from .. import e1
+        e1.bind_real_worker(case["real"])
+    else:
+        H.bind(case.get("p") or REC.BN128)
     if case.get("bfs"):
         from .. import bfs
         hist = tuple(_tuplify(e) for e in case["hist"])
@@ -54,3 +58,13 @@ def depth2_family(ctx):
             seen.add(k)
             out.append(pr)
     return out
+
+
+def real_backend_sweeps(ctx, oracle_path, modes):
+    """The same depth-1 sweep against the REAL snarkjs / zkinterface backend modules (their own linear
+    combination classes, field inverse and modulus): complete D(2) plus the huge-value lattice of the
+    backend's own field (multiples and neighbours of p)."""
+    from .. import e1
+    for mod, p in e1.REAL_BACKENDS.items():
+        e1.sweep(ctx, E.depth1_programs(include_fxp=True), [(2, p, E.D(2))] + ([(3, p, E.D(3))] if ctx.thorough else []), oracle_path, modes=modes, real=mod)
+        e1.sweep(ctx, E.huge_programs(), [(16, p, E.huge_lattice(p))], oracle_path, modes=modes, real=mod)
